@@ -743,6 +743,11 @@ func checkValid(vec *Vec, rep *tc.Reporter) {
 	if tb := packets.TotalBytes(pk); int(tb) != len(enc) {
 		div("totalbytes-packed:"+ty, fmt.Sprintf("packets.TotalBytes = %d after Pack wrote %d bytes (%s)", tb, len(enc), ty), vec, nil)
 	}
+	// the message built from the value (outbound direction: the decoder refuses Subscription Identifiers in a PUBLISH,
+	// finding D11, so messages with identifiers are only reached from here)
+	if pub, ok := pk.(*packets.Publish); ok && member(enc, vec) {
+		checkMessage(pub, vec, enc)
+	}
 }
 
 // features names what distinguishes a packet value (for specific signatures): its properties, will properties,
@@ -827,8 +832,8 @@ func lossless(p *PV) bool {
 			if len(x.S) == 0 {
 				return false
 			}
-		case 38:
-		default: // topic alias, subscription identifier are not part of a Message built by MessageFromPublish
+		case 38, 11:
+		default: // a topic alias is not part of a Message
 			return false
 		}
 	}
@@ -844,6 +849,10 @@ func checkMessage(pub *packets.Publish, vec *Vec, in []byte) {
 	v := ver(vec.P.V)
 	msg := gmqtt.MessageFromPublish(pub)
 	msg.PacketID = pub.PacketID
+	if pub.Properties != nil && v == packets.Version5 {
+		// what the delivery path does after MessageFromPublish: the identifiers of the matching subscriptions
+		msg.SubscriptionIdentifier = append([]uint32(nil), pub.Properties.SubscriptionIdentifier...)
+	}
 	tb := msg.TotalBytes(v)
 	out, perr := pack(gmqtt.MessageToPublish(msg, v))
 	if perr != "" {
